@@ -158,7 +158,13 @@ pub fn wmc_lines(rng: &mut Rng, maxvars: usize, maxops: usize) -> Vec<String> {
                     (RealSemiring(1.0 - *k as f64 / 8.0), RealSemiring(*k as f64 / 8.0)),
                 );
             }
-            let cr = d.unsmoothed_wmc(&WmcParams::new(rm)).0;
+            let rparams = WmcParams::new(rm);
+            // the weight of one total assignment (bits of `i * 2654435761 mod 2^n`)
+            let abits = (i.wrapping_mul(2654435761)) & ((1usize << n) - 1);
+            let lits: Vec<rsdd::repr::Literal> =
+                (0..n).map(|x| rsdd::repr::Literal::new(VarLabel::new_usize(x), (abits >> x) & 1 == 1)).collect();
+            let aw = rparams.assignment_weight(&lits).0;
+            let cr = d.unsmoothed_wmc(&rparams).0;
             let mut cm = HashMap::new();
             for (x, (a, bq)) in wc.iter().enumerate() {
                 let (re, im) = (*a as f64 / 4.0, *bq as f64 / 4.0);
@@ -170,8 +176,8 @@ pub fn wmc_lines(rng: &mut Rng, maxvars: usize, maxops: usize) -> Vec<String> {
             let (sh, shw) = by_prime!(pi, sem_hash, d, n);
             let (shn, _) = by_prime!(pi, sem_hash, d.neg(), n);
             format!(
-                "tt={} cn={} ca={} sm={} sa={} mc={} cr={} cx={},{} cxn={},{} nodes={} sh={} shn={} shw={} smk={}",
-                tt, cn, ca, bdd_raw_string(sm), sa, mc, f64_exact(cr), f64_exact(cx.re), f64_exact(cx.im),
+                "tt={} cn={} ca={} sm={} sa={} mc={} cr={} aw={}:{} cx={},{} cxn={},{} nodes={} sh={} shn={} shw={} smk={}",
+                tt, cn, ca, bdd_raw_string(sm), sa, mc, f64_exact(cr), abits, f64_exact(aw), f64_exact(cx.re), f64_exact(cx.im),
                 f64_exact(cxn.re), f64_exact(cxn.im), d.count_nodes(), sh, shn, pairs(&shw), smk.join(";")
             )
         });
